@@ -261,7 +261,7 @@ class Guards:
                 else:
                     is_it = _is_none
                     cannot_be = lambda o: (isinstance(o, ast.Constant) and o.value is not None) or isinstance(
-                        o, (ast.List, ast.Dict, ast.Set, ast.Tuple, ast.ListComp, ast.SetComp, ast.DictComp, ast.JoinedStr, ast.Compare))
+                        o, (ast.List, ast.Dict, ast.Set, ast.Tuple, ast.ListComp, ast.SetComp, ast.DictComp, ast.JoinedStr, ast.Compare, ast.Lambda))
                 origins = self._origins(x, nx, seen, rd, 0, vkey)
                 if origins is not None:
                     if all(is_it(o) for o in origins):
@@ -762,3 +762,95 @@ def unthreaded_options(repo: Repo, f: FuncInfo, pname: str):
                 continue
             if not any(x[0] == f"param:{pname}" for x in tr):
                 yield c, t, unparse(a, 40)
+
+
+def emptiness_matcher(p: Prov, roots: Dict[str, str]):
+    """atom function for Guards: tests of whether a collection PARAMETER is empty.  `roots` maps a provenance root ('param:xs') to the
+    atom name; the atom is True when the collection is EMPTY.  Recognised: `not xs`, `xs` (truth value), `len(xs) == 0 / != 0 / > 0 / < 1 /
+    >= 1 / <= 0`, `xs == []` -- over any alias of the parameter"""
+    def root_of(e):
+        try:
+            tr = p.trace(e)
+        except (KeyError, RecursionError):
+            return None
+        if tr and len({x for x in tr}) == 1:
+            (x,) = tuple(tr)
+            if len(x) == 1 and x[0] in roots:
+                return roots[x[0]]
+        return None
+
+    def matcher(e):
+        if isinstance(e, ast.Name) and isinstance(e.ctx, ast.Load):
+            a = root_of(e)
+            return "!" + a if a else None
+        if isinstance(e, ast.Compare) and len(e.ops) == 1:
+            l, r_, op = e.left, e.comparators[0], type(e.ops[0])
+            if isinstance(l, ast.Call) and isinstance(l.func, ast.Name) and l.func.id == "len" and len(l.args) == 1 and isinstance(r_, ast.Constant) \
+                    and isinstance(r_.value, int):
+                a = root_of(l.args[0])
+                if a is None:
+                    return None
+                c = r_.value
+                if (op, c) in ((ast.Eq, 0), (ast.Lt, 1), (ast.LtE, 0)):
+                    return a
+                if (op, c) in ((ast.NotEq, 0), (ast.Gt, 0), (ast.GtE, 1)):
+                    return "!" + a
+                return None
+            if isinstance(r_, (ast.List, ast.Tuple, ast.Set, ast.Dict)) and not getattr(r_, "elts", getattr(r_, "keys", None)) and op in (ast.Eq, ast.NotEq):
+                a = root_of(l)
+                return (a if op is ast.Eq else "!" + a) if a else None
+        return None
+    return matcher
+
+
+def flows_to_return(f: FuncInfo, expr: ast.AST, limit: int = 200) -> bool:
+    """def-use closure: can the value of `expr` become (part of) what the function returns / yields?  Follows assignments to local names,
+    `x.append(e)` / `x.add(e)` / `x.extend(e)` / `x += e` into the container name, uses in later statements; a use inside a branch
+    condition does not count."""
+    g = C.cfg_of(f.node)
+    rd = rd_of(f)
+    pm = parents_of(f)
+
+    def stmt_of(e):
+        cur = e
+        while cur in pm and not isinstance(cur, ast.stmt):
+            cur = pm[cur]
+        return cur if isinstance(cur, ast.stmt) else None
+
+    def in_test(e, st) -> bool:
+        cur = e
+        while cur in pm and cur is not st:
+            par = pm[cur]
+            if isinstance(par, (ast.If, ast.While, ast.IfExp, ast.Assert)) and par.test is cur:
+                return True
+            cur = par
+        return False
+
+    work, seen = [expr], set()
+    while work and limit > 0:
+        limit -= 1
+        e = work.pop()
+        st = stmt_of(e)
+        if st is None or id(e) in seen or in_test(e, st):
+            continue
+        seen.add(id(e))
+        if isinstance(st, ast.Return) or any(isinstance(x, (ast.Yield, ast.YieldFrom)) and any(y is e for y in ast.walk(x)) for x in ast.walk(st)):
+            return True
+        names = []
+        if isinstance(st, ast.Assign):
+            names = [n.id for t in st.targets for n in ast.walk(t) if isinstance(n, ast.Name)]
+        elif isinstance(st, (ast.AnnAssign, ast.AugAssign)) and isinstance(st.target, ast.Name):
+            names = [st.target.id]
+        elif isinstance(st, ast.Expr) and isinstance(st.value, ast.Call) and isinstance(st.value.func, ast.Attribute) and \
+                st.value.func.attr in ("append", "add", "extend", "update", "insert", "appendleft") and isinstance(st.value.func.value, ast.Name):
+            names = [st.value.func.value.id]
+        dn = g.node_of(st)
+        for name in names:
+            for u in ast.walk(f.node):
+                if isinstance(u, ast.Name) and u.id == name and isinstance(u.ctx, ast.Load):
+                    un = g.node_containing(u)
+                    if un is None:
+                        continue
+                    if isinstance(st, ast.Expr) or dn in rd.defs_reaching(un, name) or un == dn:
+                        work.append(u)
+    return False
